@@ -424,6 +424,12 @@ class Grid(object):
         self._dtype = value
         self._data = self._data.astype(value)
 
+        # Express the no data value in the new type if it can be
+        try:
+            self._nodata = np.dtype(value).type(self._nodata)
+        except (ValueError, OverflowError):
+            pass
+
     @property
     def mindata(self):
         """ Get data minimum allowed """
